@@ -304,6 +304,11 @@ func executorArms(r *ev.Run, cfg armsCfg) {
 					InputRootDigest: emptyRoot.GetProto(),
 					Timeout:         durationpb.New(time.Hour),
 					DoNotCache:      (e+i)%2 == 0,
+					// The salt keeps the actions of concurrently running
+					// executors distinct even on arms that replace the
+					// command digest: two equal cacheable actions at once
+					// legitimately collide on the digest-named directory.
+					Salt: []byte(name),
 				}
 				request := &remoteworker.DesiredState_Executing{Action: action}
 				fault := ""
